@@ -358,6 +358,9 @@ def _conform_kind(scratch, module, trace_files, kind, flags, consts_for, name, t
                     nxt = {k: v for k, v in j.items() if k not in ("nb",)}
                     break
             stuck[x] = dict(kind=kind, line=nxt)
+            if len(stuck) <= 3:
+                # the whole run, for diagnosis from the evidence file
+                stuck[x]["events"] = [{k: v for k, v in j.items() if k != "nb"} for j in lines if j["run"] == x][:80]
     return dict(total=total, accepted=accepted, rejected=rejected, states=states, stuck=stuck,
                 accepted_runs=[x for x in runs if x in acc])
 
